@@ -149,6 +149,11 @@ class Fn:
             return ds[0]
         return None
 
+    def ids_named(self, name):
+        if self._defs is None:
+            self._scan_defs()
+        return [i for i, nm in self._names.items() if nm == name]
+
     def calls(self):
         """All (point, call-node) pairs, each call once (at its own element)."""
         for pt, e in self.points():
@@ -210,6 +215,18 @@ def own_walk(n):
         first = False
         yield x
         stack.extend(reversed(kids(x)))
+
+
+def callee_name(n):
+    """Direct callee, or the name of the global function pointer called through."""
+    if n.get("fn"):
+        return n["fn"]
+    fe = n.get("fe")
+    while isinstance(fe, dict) and fe.get("k") in ("cast", "un"):
+        fe = fe.get("e")
+    if isinstance(fe, dict) and fe.get("k") == "ref":
+        return fe["name"]
+    return None
 
 
 def strip(n):
